@@ -1,4 +1,4 @@
-HOOK_COMMITS = ["7220a95"]
+HOOK_COMMITS = ["7220a95", "181c387", "62547bd", "e919609", "ac6ee53"]
 NOTES = ("Technique family: machine-checked proof in Coq 8.16.1. ./check <id> --tier quick|thorough; evidence in /verif/evidence/<id>.json; "
          "known findings in /verif/KNOWN_FINDINGS.txt; DESIGN.md explains model, tie and trusted base.")
 NOT_CLAIMED = {}
@@ -8,5 +8,15 @@ CLAIMED = {
                 "Shifts and mask width are re-extracted from set_digest.rs on every run; the model is run against the real hb_set_digest_t (hook) exhaustively on bit positions and on structured+random ranges and op sequences in release and overflow-checked builds; the prefilter switch hook compares shaping with and without prefilters on corpus fonts.",
         "note": "Trusted: Coq kernel + vm_compute; translator regexes; harness and hook accessors; the theorem that shaping is unchanged by the prefilters (C10_transparent over the GSUB/GPOS interpreter model) is covered by the on/off correspondence search only until the interpreter model lands.",
         "technique": "Coq proof (finite sweep lifted by lemma) + hook correspondence (exhaustive/random) + prefilter on/off differential",
+    },
+    "C14": {
+        "text": "Coq theorems (Props/C14.v) over an executable model of Feature::new (five RangeBounds shapes), buffer set_masks, the mask-bit allocation of the feature map and the alternate index: for ALL inputs set_masks writes value<<shift into exactly the glyphs with start <= cluster < end and leaves every other bit of every glyph unchanged; allocated fields are pairwise disjoint, inside bits 4..29, clear of the flag bits and the global bit, wide enough for min(value,255), and a feature is dropped rather than overlapped when bits run out; value 0 disables, value k selects the k-th alternate. Feature::new deviates for every bounded range end (known class, _refuted witness replayed every run); parser round-trip is partial.",
+        "note": "Constants re-extracted from ot_map.rs/common.rs each run; model == code checked by vm_compute correspondence through hooks (Feature::new, from_str streams, set_masks, compiled plans; release and overflow-checked builds) and an implementation-level predicate search on generated and corpus fonts (all (start,end) x values over short texts). Known classes: feature_new_end_bound, from_str_index_i32. GSUB matching itself is C06's. Domain: clusters < u32::MAX.",
+        "technique": "Coq proof (lia, bit-level N lemmas, induction over info lists) + translator constants + hook/API correspondence by vm_compute + exhaustive small-range predicate search",
+    },
+    "C13": {
+        "text": "Coq theorems (Props/C13.v): the classification function REGENERATED from the match arms of is_default_ignorable equals Unicode 16 Default_Ignorable_Code_Point minus the four fillers for every code point outside U+1BCA0..3 (range arithmetic, no enumeration; inside: known class with _refuted witness); delete_glyphs_inplace keeps exactly the non-filtered glyphs with untouched positions, clusters subset, minimum kept; the two default-ignorable passes hide (space/invisible glyph, zero advance and offsets) or remove exactly the ignorable, unsubstituted glyphs and are the identity under PRESERVE; insertion of ignorables is inert for the cmap+hmtx+passes pipeline (model level).",
+        "note": "Model == code checked per run: classification exhaustively over all 1,114,112 code points (hook), delete/passes on the real functions via hooks with random buffers, public API on generated cmap-only fonts; implementation-level predicate over all default-ignorable candidates x insertion positions x flags x directions x 4 fonts. DICP ranges typed in from the standard (no UCD file offline). Known class: shorthand_format_controls (U+1BCA0..3, deliberate HarfBuzz-compatible exclusion).",
+        "technique": "Coq proof over a structurally translated classification function and hand-written pass models + exhaustive/hook/API correspondence + exhaustive predicate search",
     },
 }
